@@ -32,6 +32,10 @@ pub enum Op {
     SetSend(bool, u64),
     RekeyOut(bool),
     RekeyIn(bool),
+    /// rekey_manually(Some(k1), Some(k2)) with the same keys on BOTH endpoints
+    ManualBoth(u8),
+    /// rekey_initiator_manually / rekey_responder_manually (by bool) on both endpoints
+    ManualOne(bool, u8),
 }
 
 #[derive(Clone, Debug, Serialize, Deserialize)]
@@ -51,7 +55,7 @@ struct Rec {
     bytes: Vec<u8>,
 }
 
-pub const NONCES: [u64; 9] = [0, 1, 0xFFFF_FFFF, 0x1_0000_0000, u64::MAX - 4, u64::MAX - 3, u64::MAX - 2, u64::MAX - 1, u64::MAX];
+pub const NONCES: [u64; 19] = [0, 1, 0xFFFF_FFFF, 0x1_0000_0000, u64::MAX - 4, u64::MAX - 3, u64::MAX - 2, u64::MAX - 1, u64::MAX, 254, 255, 256, 65534, 65535, 65536, (1 << 24) - 1, (1 << 31) - 1, (1 << 48) - 1, (1 << 63) - 1];
 
 fn new_events(log: &Log, from: usize) -> Vec<Ev> {
     log.events()[from..].to_vec()
@@ -175,6 +179,35 @@ fn oracle(c: &Case, acc: &mut Acc) -> CaseResult {
                         }
                     }
                 },
+                Op::ManualBoth(k) => {
+                    let (k1, k2) = (crate::engine::expand32(c.seed, 400 + *k as u64), crate::engine::expand32(c.seed, 401 + *k as u64));
+                    for t in ts.iter_mut() {
+                        t.rekey_manually(Some(&k1), Some(&k2));
+                    }
+                    // epochs are a function of the installed key: label * 10^6, auto rekeys add 1
+                    let (e1, e2) = ((400 + *k as u64) * 1_000_000, (401 + *k as u64) * 1_000_000);
+                    out_epoch = [e1, e2];
+                    in_epoch = [e2, e1];
+                },
+                Op::ManualOne(resp, k) => {
+                    let k1 = crate::engine::expand32(c.seed, 500 + *k as u64);
+                    for t in ts.iter_mut() {
+                        if *resp {
+                            t.rekey_responder_manually(&k1);
+                        } else {
+                            t.rekey_initiator_manually(&k1);
+                        }
+                    }
+                    let ep = (500 + *k as u64) * 1_000_000;
+                    // initiator-egress key: out of side 0, in of side 1; responder-egress: the reverse
+                    if *resp {
+                        out_epoch[1] = ep;
+                        in_epoch[0] = ep;
+                    } else {
+                        out_epoch[0] = ep;
+                        in_epoch[1] = ep;
+                    }
+                },
                 Op::RekeyOut(side_i) => {
                     let s = !*side_i as usize;
                     ts[s].rekey_outgoing();
@@ -270,6 +303,35 @@ fn oracle(c: &Case, acc: &mut Acc) -> CaseResult {
                         }
                     }
                 },
+                Op::ManualBoth(k) => {
+                    let (k1, k2) = (crate::engine::expand32(c.seed, 400 + *k as u64), crate::engine::expand32(c.seed, 401 + *k as u64));
+                    for t in ts.iter_mut() {
+                        t.rekey_manually(Some(&k1), Some(&k2));
+                    }
+                    // epochs are a function of the installed key: label * 10^6, auto rekeys add 1
+                    let (e1, e2) = ((400 + *k as u64) * 1_000_000, (401 + *k as u64) * 1_000_000);
+                    out_epoch = [e1, e2];
+                    in_epoch = [e2, e1];
+                },
+                Op::ManualOne(resp, k) => {
+                    let k1 = crate::engine::expand32(c.seed, 500 + *k as u64);
+                    for t in ts.iter_mut() {
+                        if *resp {
+                            t.rekey_responder_manually(&k1);
+                        } else {
+                            t.rekey_initiator_manually(&k1);
+                        }
+                    }
+                    let ep = (500 + *k as u64) * 1_000_000;
+                    // initiator-egress key: out of side 0, in of side 1; responder-egress: the reverse
+                    if *resp {
+                        out_epoch[1] = ep;
+                        in_epoch[0] = ep;
+                    } else {
+                        out_epoch[0] = ep;
+                        in_epoch[1] = ep;
+                    }
+                },
                 Op::RekeyOut(side_i) => {
                     let s = !*side_i as usize;
                     ts[s].rekey_outgoing();
@@ -313,6 +375,8 @@ fn scenarios() -> Vec<Vec<Op>> {
             out.push(vec![Op::Write(side, 0), Op::SetRecv(!side, v), Op::Deliver(!side, 0, 0), Op::Deliver(!side, 0, 1), Op::SetRecv(!side, 0), Op::Deliver(!side, 0, 0)]);
             // failing ops at the boundary do not move counters
             out.push(vec![Op::SetSend(side, v), Op::Write(side, 1), Op::Write(side, 2), Op::Write(side, 0), Op::SetRecv(!side, v), Op::Deliver(!side, 0, 2), Op::Deliver(!side, 0, 1), Op::Deliver(!side, 0, 0)]);
+            // manual rekeys do not touch counters either (also not at the reserved value)
+            out.push(vec![Op::SetSend(side, v), Op::SetRecv(!side, v), Op::ManualBoth(0), Op::Write(side, 0), Op::Deliver(!side, 0, 0), Op::ManualOne(!side, 1), Op::Write(side, 0), Op::Deliver(!side, 0, 0), Op::ManualOne(side, 2), Op::Write(side, 0), Op::Deliver(!side, 0, 0)]);
             // rekeys do not touch counters
             out.push(vec![Op::SetSend(side, v), Op::RekeyOut(side), Op::RekeyIn(!side), Op::SetRecv(!side, v), Op::Write(side, 0), Op::Deliver(!side, 0, 0), Op::RekeyIn(side), Op::Write(side, 0), Op::Deliver(!side, 0, 0)]);
         }
@@ -345,7 +409,7 @@ pub fn run(ctx: &Ctx) {
         "random_sequences",
         ctx.tier.pick(60_000, 1_000_000),
         move || {
-            let nonce = prop_oneof![6 => (0usize..NONCES.len()).prop_map(|i| NONCES[i]), 1 => any::<u64>()];
+            let nonce = prop_oneof![6 => (0usize..NONCES.len()).prop_map(|i| NONCES[i]), 1 => any::<u64>(), 1 => (0u32..64).prop_map(|b| (1u64 << b) - 1), 1 => (0u32..64).prop_map(|b| (1u64 << b).wrapping_sub(2))];
             let op = prop_oneof![
                 6 => (any::<bool>(), prop_oneof![6 => Just(0u8), 1 => Just(1u8), 1 => Just(2u8)]).prop_map(|(a, k)| Op::Write(a, k)),
                 6 => (any::<bool>(), 0u8..3, prop_oneof![6 => Just(0u8), 1 => Just(1u8), 1 => Just(2u8)]).prop_map(|(a, w, k)| Op::Deliver(a, w, k)),
@@ -353,6 +417,8 @@ pub fn run(ctx: &Ctx) {
                 2 => (any::<bool>(), nonce).prop_map(|(a, v)| Op::SetSend(a, v)),
                 1 => any::<bool>().prop_map(Op::RekeyOut),
                 1 => any::<bool>().prop_map(Op::RekeyIn),
+                1 => (0u8..3).prop_map(Op::ManualBoth),
+                1 => (any::<bool>(), 0u8..3).prop_map(|(r, k)| Op::ManualOne(r, k)),
             ];
             (0usize..4, 0usize..24, any::<bool>(), any::<bool>(), prop::collection::vec(op, 0..30), any::<u64>()).prop_map(move |(p, suite_idx, ring, stateless, ops, seed)| Case {
                 pattern: pats[p].to_string(),
